@@ -28,6 +28,7 @@ func (p *defaultPoll) Free(operator *FDOperator) {
 }
 
 func (p *defaultPoll) appendHup(operator *FDOperator) {
+	verifPoint(vpAppendHup, operator, operator.FD)
 	p.hups = append(p.hups, operator.OnHup)
 	p.detach(operator)
 	operator.done()
@@ -46,6 +47,7 @@ func (p *defaultPoll) onhups() {
 	hups := p.hups
 	p.hups = nil
 	go func(onhups []func(p Poll) error) {
+		verifPoint(vpHupsRun, p, len(onhups))
 		for i := range onhups {
 			if onhups[i] != nil {
 				onhups[i](p)
